@@ -51,10 +51,11 @@ def _case(draw):
         if len(names) < 2:
             names += ["plain.txt", "lib"]
     hide = []
-    cand = [n for n in names if not n.startswith(".") and not n.endswith("/")]
+    cand = [n for n in names if not n.startswith(".")]
     if handler == "umn" and cand:
         for n in draw(st.lists(st.sampled_from(cand), max_size=2, unique=True)):
-            hide.append([n, draw(st.sampled_from(["namesX", "capX", "cap-"]))])
+            hows = ["namesX", "capX", "cap-", "names~"] + (["namesX/", "namesX/", "names~/"] if n.endswith("/") else [])
+            hide.append([n.rstrip("/"), draw(st.sampled_from(hows))])
     k = len(names) + 3
     return {"names": names, "parent": draw(st.sampled_from(PARENTS)), "handler": handler, "hide": hide,
             "perm1": draw(st.permutations(list(range(k)))), "perm2": draw(st.permutations(list(range(k)))),
@@ -116,8 +117,9 @@ def _spec(case):
             content[n] = "content of %s\n" % n
     names_blocks = []
     for n, how in case["hide"]:
-        if how == "namesX":
-            names_blocks.append("Type=X\nPath=./%s\n" % n)
+        if how.startswith("names"):
+            # the manual's spellings of a path in the same directory: './name', '~/name', either with a trailing '/'
+            names_blocks.append("Type=X\nPath=%s/%s%s\n" % ("~" if "~" in how else ".", n, "/" if how.endswith("/") else ""))
         elif how == "capX":
             spec.append([pre + ".cap/" + n, "f", "Type=X\n"])
         else:
